@@ -130,6 +130,7 @@ def gen_config(rng):
             cfgd['parent2'] = {'resources': [r for r in cfgd['parent']['resources'] if rng.random() < 0.35],
                                'prefix': rng.choice(['/two', '/up'])}
     cfgd['replace_after'] = rng.random() < 0.4
+    cfgd['ep_value'] = rng.choice(['dict', 'dict', 'emptydict', 'emptylist'])
     if not cfgd.get('parent') and rng.random() < 0.3:
         cfgd['strip_prefix'] = '/mnt'
     if utypes and rng.random() < 0.6:
@@ -243,7 +244,8 @@ def build(cfg, tag):
     for m in cfg['mws']:
         cls = make_mw_type('C02%s' % m['name'], True, True, m['funcs'])
         objs[m['level']].append(cls(m['name']))
-    ep = wrap_kind(cfg['ep'], 'EP', 'resp' if cfg.get('no_render') else 'dict')
+    # what the endpoint hands to the renderer: a dict, or an EMPTY dict / list (falsy, and still the object to be rendered)
+    ep = wrap_kind(cfg['ep'], 'EP', 'resp' if cfg.get('no_render') else cfg.get('ep_value', 'dict'))
     rn = None if cfg.get('no_render') else wrap_kind(cfg['rn'], 'RN', 'resp')
     segs = ['x']
     for u, t in cfg['url']:
@@ -329,9 +331,10 @@ def url_values(cfg, seq):
             segs.extend(vals[u])
         else:
             # also values that begin / end with characters a careless converter strips
-            pre = ['', '+', '++', '-', '.', '~', '%2B', ' ', '_'][(seq + len(u)) % 9]
+            # (%2541: after the server's ONE decoding the segment still reads %41 -- and stays that way)
+            pre = ['', '+', '++', '-', '.', '~', '%2B', ' ', '_', '%2541', '100%25'][(seq + len(u)) % 11]
             raw = '%sv%d%s%s' % (pre, seq, u, ['', '+', '.'][seq % 3])
-            vals[u] = raw.replace('%2B', '+')
+            vals[u] = raw.replace('%2B', '+').replace('%2541', '%41').replace('%25', '%')
             segs.append(raw.replace(' ', '%20'))
     return vals, '/' + '/'.join(segs)
 
@@ -428,7 +431,7 @@ class C02(Check):
     level_note = 'Trusted: the resolver (~40 lines from the property text), generator validity rules V1-V3.'
     required_probes = ('embedded-in-parent-offering-more-names', 'decoy-route-binding-named-like-resource', 'positional-next-multi', 'render-error-injected', 'optional-got-offered-value', 'kwonly-got-offered-value', 'null-route-defaults', 'concurrent-batch',
                        'kind-lambda', 'kind-callable', 'kind-classmethod', 'kind-decorated', 'multi-url-value',
-                       'bare-route-with-catch-all-endpoint', 'kind-varkw', 'callers-dict-changed-after-construction', 'behind-prefix-stripping-wrapper', 'url-list-value-mutated-after-request', 'same-url-as-previous-request-while-another-is-served', 'same-application-embedded-in-second-parent', 'name-spelled-like-generated-code-identifier', 'default-for-name-provided-elsewhere', 'optional-url-binding-absent', 'optional-url-binding-zero', 'optional-url-binding-present', 'url-value-zero', 'multi-url-binding-empty')
+                       'falsy-render-context', 'bare-route-with-catch-all-endpoint', 'kind-varkw', 'callers-dict-changed-after-construction', 'behind-prefix-stripping-wrapper', 'url-list-value-mutated-after-request', 'same-url-as-previous-request-while-another-is-served', 'same-application-embedded-in-second-parent', 'name-spelled-like-generated-code-identifier', 'default-for-name-provided-elsewhere', 'optional-url-binding-absent', 'optional-url-binding-zero', 'optional-url-binding-present', 'url-value-zero', 'multi-url-binding-empty')
 
     def generate(self, seed, tier):
         S = Streams(seed)
@@ -512,6 +515,8 @@ class C02(Check):
             res.probe('decoy-route-binding-named-like-resource')
         if cfg.get('parent'):
             res.probe('embedded-in-parent-offering-more-names')
+        if cfg.get('ep_value', 'dict') != 'dict' and not cfg.get('no_render'):
+            res.probe('falsy-render-context')
         if cfg.get('replace_after') and (cfg['resources'] or cfg.get('route_resources')):
             res.probe('callers-dict-changed-after-construction')
         if cfg.get('strip_prefix') and not cfg.get('parent'):
